@@ -61,6 +61,11 @@ def registrations(bundle):
         acts.append(reg)
     for tn, spec in renv["typeResolvers"].items():
         acts.append(lambda tn=tn, spec=spec: TypeResolver(tn, schema_name=name)(er.make_type_resolver(built, spec, "type:" + tn)))
+    # a resolver that memoises "who is asking" in the request's context when there is one (probes are sent without context)
+    async def whoami(parent, args, ctx, info):
+        if isinstance(ctx, dict): return ctx.setdefault("viewer", tag)
+        return tag
+    acts.append(lambda: Resolver("Query.whoami", schema_name=name)(whoami))
     return acts
 
 class CookFailed:
@@ -98,6 +103,8 @@ def make_bundle(rng, idx):
         dg = DocGen(sg, rng)
         q, ops, opvars = dg.document(n_ops=1)
         probes.append((q, ops[0][1], dg.variables_for(opvars[0])[0]))
+    sg.query["fields"].append({"name": "whoami", "args": [], "type": {"n": "String"}})
+    probes.append(("{ whoami }", None, None))
     model = sg.model()
     # a custom directive on some String fields, and a directive-adding type extension
     marked = 0
@@ -129,6 +136,14 @@ def make_bundle(rng, idx):
     # refused documents: the errors (and whatever this name's error coercer writes into them) stay with this engine
     probes.append(("{ nope_field }", None, None)); probes.append(("{ __typename @nopeDirective }", None, None))
     probes.append(("query A { __typename } query A { __typename }", "A", None)); probes.append(("{ __typename ...Ghost }", None, None))
+    # some names forbid introspection at schema level: the refusal (a field error) speaks about the request at hand - its own
+    # alias, its own position - whoever else was refused before in this process
+    if rng.random() < 0.5:
+        model["sdl_extra"] = list(model["sdl_extra"]) + ["extend schema @nonIntrospectable"]
+        al = f"meta{idx}"
+        # (asked FIRST: the first refusal of a process must not decide what later ones say)
+        probes.insert(0, (f"{{ __typename\n\n   {al}: __schema {{ queryType {{ name }} }} }}", None, None))
+        probes.insert(1, (f'{{ {al}b: __type(name: "Query") {{ name }} __typename }}', None, None))
     return {"name": f"name{idx}", "model": model, "env": renv, "tag": tag, "probes": probes, "stamping": rng.random() < 0.6}
 
 def alone(bundle):
